@@ -71,6 +71,9 @@ const (
 	EUrlRetry = "NewVUrl.Valid(early error).SetRule.Valid"
 )
 
+// EmptyTag in Call.Tag: the empty string is passed as the tag name (Call.Tag == "" means: no tag name is passed).
+const EmptyTag = "<empty>"
+
 const NHelpers = 14
 
 func (c Call) helper() (s string) {
@@ -408,7 +411,17 @@ func (c Call) build() *args {
 		}
 		if c.Entry == ENested {
 			a.nest = map[interface{}]valid.RM{}
-			if c.Rule != 0 {
+			if c.Rule != 0 && c.Fn%3 == 1 {
+				// exactly ONE entry, keyed by a concrete type (seeded C12r cleared a one-entry rule map by deleting the outer-object key only)
+				switch c.Val % 3 {
+				case 0:
+					a.nest[&Item{}] = mkRule(c.Rule)
+				case 1:
+					a.nest[&User{}] = mkRule(1 + c.Rule%3)
+				default:
+					a.nest[mkValue(c.Type, 0)] = mkRule(c.Rule)
+				}
+			} else if c.Rule != 0 {
 				a.nest[&Item{}] = mkRule(c.Rule)
 				a.nest[&User{}] = mkRule(1 + c.Rule%3)
 				a.nest[&Plain{}] = mkRule(1 + (c.Rule+1)%3) // a type that carries no rule of its own
@@ -550,7 +563,9 @@ func (c Call) Exec() (res Result) {
 		res.Canon = "err:" + s
 	}
 	tag := []string{}
-	if c.Tag != "" {
+	if c.Tag == EmptyTag {
+		tag = []string{""}
+	} else if c.Tag != "" {
 		tag = []string{c.Tag}
 	}
 	switch c.Entry {
@@ -578,6 +593,11 @@ func (c Call) Exec() (res Result) {
 		errRes(valid.ValidStructForMyValidFn(a.src, name, fn, tag...))
 	case EChain:
 		v := valid.NewVStruct(tag...)
+		if a.rule != nil && c.Val%4 == 3 && c.Type < 1000 {
+			// the only rule set of this validator is one for a concrete type
+			errRes(v.SetRule(a.rule, mkValue(c.Type, 0)).Valid(a.src))
+			break
+		}
 		if a.rule != nil {
 			v.SetRule(a.rule)
 		}
